@@ -410,10 +410,19 @@ def s3(run: Run, prog: Program):
         if isinstance(c, ast.Call) and isinstance(c.func, ast.Attribute) and \
                 c.func.attr == "set_attribute_values":
             conds = []
+            from .idioms import inline_locals
             for st in ast.walk(sv.node):
-                if isinstance(st, ast.If) and any(x is c for x in ast.walk(st)):
-                    conds.append(ast.unparse(st.test))
-            bad = [x for x in conds if "graph" in x or "attribute" in x]
+                if isinstance(st, ast.If) and any(x is c for b_ in st.body
+                                                  for x in ast.walk(b_)):
+                    t_ = inline_locals(sv.node, st.test)
+                    parts = t_.values if isinstance(t_, ast.BoolOp) and \
+                        isinstance(t_.op, ast.And) else [t_]
+                    conds.extend(ast.unparse(p_) for p_ in parts)
+            # the only admissible condition is "there are node weights": anything
+            # else (the graph already carries the attribute, the weights are all
+            # one, ...) leaves an older attribute value in the file
+            bad = [x for x in conds if not re.fullmatch(
+                r"(self\.)?_?node_weights is not None", x)]
             ok = not bad
             run.oblige("S3", "Network.save:unconditional-write", ok, sample={
                 "conditions": conds})
@@ -515,6 +524,9 @@ def s4(run: Run, prog: Program):
                 for st in base.node.body:
                     if isinstance(st, ast.Assign):
                         classlevel |= {x.id for x in st.targets if isinstance(x, ast.Name)}
+                    elif isinstance(st, ast.AnnAssign) and st.value is not None and \
+                            isinstance(st.target, ast.Name):
+                        classlevel.add(st.target.id)
             bad = _use_before_def(t, classlevel)
             inst = f"{cname}.{mname}->{K.name}({', '.join(f'{k}={v!r}' for k, v in sorted(env.items()))})"
             run.oblige("S4", inst, not bad, sample={
